@@ -28,6 +28,10 @@ RAW = [
     "a := <>; 1",
     "x := {d: 1, c: 2, b: 3, a: 4}; y := x.bear({e: 5}); [y.keys, y.ancestors.len, x == {a: 4, b: 3, c: 2, d: 1}, x.items]",
     "f := {|a, b: 1, *c| 1}; g := {|**o| 1}; 1",
+    # pairs whose keys print alike (distinct floats, a keyword written several times): the printed order is still fixed
+    "m := %{1.00000001: 1, 1.00000002: 2, 1.00000003: 3, 1.00000004: 4, 1.00000005: 5}; m.p; [m.S, m.repr, m.keys, m.values, \"#{m}\"]",
+    "f := {|x, a: 1, a: 2, a: 3, a: 4| x}; f.p; [f.S, f.repr, {g: f}.S, [f].S]",
+    "%{0.1 + 0.2: 'a, 0.3: 'b, 0.30000000000000001: 'c}.p; JSON.enc(%{\"k\": 1.00000001}).p",
     # comparisons whose elements' own == raises / differs: the outcome must not depend on which entry is compared first
     "bad := {'==: m{|o| raise Err.new(\"boom\")}}; nil.try.{|u| {a: bad, b: 1} == {a: bad, b: 2}}.A",
     "bad := {'==: m{|o| raise Err.new(\"boom\")}}; nil.try.{|u| {a: bad, b: 1, c: 2, d: 3, e: 4} == {a: bad, b: 2, c: 3, d: 4, e: 5}}.A",
